@@ -421,9 +421,25 @@ func (h *H) work(w *W, j varmq.Job[int]) (int, error) {
 	case BErr:
 		return 0, errOf(tag)
 	case BPanic:
+		// the panic value's kind depends on the job: a string, a value implementing error, a run-time error
+		switch tag % 3 {
+		case 1:
+			panic(fmt.Errorf("boom%d", tag))
+		case 2:
+			var none []int
+			_ = none[tag] // index out of range: a runtime.Error
+		}
 		panic(fmt.Sprintf("boom%d", tag))
 	}
 	return valOf(tag), nil
+}
+
+// panicText is what the error of a panicking job must mention.
+func panicText(tag int) string {
+	if tag%3 == 2 {
+		return "index out of range"
+	}
+	return fmt.Sprintf("boom%d", tag)
 }
 
 func (h *H) gate(tag int) chan struct{} {
